@@ -244,3 +244,11 @@ reg("C29", "model_checking", "TLA+ spec SecSession model-checked with TLC over e
     "frames received (with the callbacks they caused) and frames sent (plain / wrapped, service, number) must be a behaviour of the spec.",
     "Trusted: TLC, the virtual-time loop, the simulated server (library primitives for X25519 / PBKDF2 / CCM - their octets are C28). Sequence numbers travel as ranks.",
     "DESIGN.md section 5 C29")
+
+reg("C30", "model_checking", "TLA+ spec SecGroup (timer events E1-E11, forwarding rules) model-checked with TLC; trace validation of the real SecureGroup on a fake multicast socket under virtual time",
+    "SecGroup is explored with a latency of 4 ticks over every history of three received frames (notifies with good / bad MAC and synchronisation replies, wrappers at every offset "
+    "around the tolerance windows) interleaved with time and outgoing wrappers: only authenticated frames move the timer, it never runs backwards, outgoing values never decrease; "
+    "the real SecureGroup synchronises (reply absent, once, duplicated) and receives every plain service, notifies and wrappers with good and bad MAC at 14 offsets around the "
+    "1000 ms / 100 ms windows plus random histories, and sends wrappers; every trace (callbacks caused, timer after each event, timer values sent, exceptions) must be a behaviour of the spec.",
+    "Trusted: TLC, the virtual-time loop, the peer built from the library's own wrapper / notify writers (their octets are C28). Timer values below 2^31 ms.",
+    "DESIGN.md section 5 C30")
